@@ -134,8 +134,10 @@ def decompose(st, total, chunk):
 def fork_on(st, cond):
     """returns [(state, True)], [(state, False)] or both depending on what the facts decide."""
     if st.F.prove_cond(cond):
+        st.F.add_cond(cond)      # entailed: keep it as an explicit row for the product lemmas
         return [(st, True)]
     if st.F.refute_cond(cond):
+        st.F.add_cond(neg_cond(cond))
         return [(st, False)]
     s1 = st.fork()
     s1.assume(cond)
